@@ -83,6 +83,7 @@ def evaluate(case):
         # than any file-name limit, '.rpm' occurring inside the directory / name / release, epochs beyond 32 and 64 bits
         for d_, n_, e_, v_, r_, sfx in (
                 ("d" * 300 + "/", name, epoch, version, release, ""),
+                ("/", name, epoch, version, release, ""), ("//", name, epoch, version, release, ".rpm"), ("./", name, epoch, version, release, ""),
                 ("/srv/mirror.rpms/pool/" + "sub-dir.1/" * 30, name, epoch, version, release, ".rpm"),
                 ("pool/x86_64.rpm.d/", name, epoch, version, release, ".rpm"),
                 ("", name + ".rpm-macros", epoch, version, release, ".rpm"),
